@@ -184,6 +184,27 @@ let run_checked (toks : string list) (cout : string list) : string =
        if string_of_int (xcmp xp xa) <> pa then failf "cmp(p,a') = %s but the numbers compare %d (a' = %s)" pa (xcmp xp xa) st2;
        "CHECK ok"
      | _ -> failf "malformed cmps output")
+  | ["cmpt"; a; b; c] ->
+    (match load [a; b; c] states, res with
+     | [(xa, va); (xb, vb); (xc, vc)], [ab1; ba1; ab2; ba2; sta; stb; ac; ca; bc; cb; ra; rb] ->
+       let want what got x y = if string_of_int (xcmp x y) <> got then failf "%s = %s but the numbers compare %d" what got (xcmp x y) in
+       expect_sign "cmp(a,b)" ab1 (v_cmp fuel va vb);
+       expect_sign "cmp(b,a)" ba1 (v_cmp fuel vb va);
+       want "cmp(a,b)" ab1 xa xb; want "cmp(b,a)" ba1 xb xa;
+       want "second cmp(a,b)" ab2 xa xb; want "second cmp(b,a)" ba2 xb xa;
+       (* what the two objects hold after being compared: still valid representations of the same numbers *)
+       let va' = value_of_state sta and vb' = value_of_state stb in
+       if not (same_number xa (v_to_xval va')) then failf "after the comparison the state %s is not the number %s" sta a;
+       if not (same_number xb (v_to_xval vb')) then failf "after the comparison the state %s is not the number %s" stb b;
+       expect_sign "cmp(a',c)" ac (v_cmp fuel va' vc); expect_sign "cmp(c,a')" ca (v_cmp fuel vc va');
+       expect_sign "cmp(b',c)" bc (v_cmp fuel vb' vc); expect_sign "cmp(c,b')" cb (v_cmp fuel vc vb');
+       want "cmp(a',c)" ac xa xc; want "cmp(c,a')" ca xc xa; want "cmp(b',c)" bc xb xc; want "cmp(c,b')" cb xc xb;
+       (* a value that reports itself rational must be rational (is_rational is sound) *)
+       let rational x = (match x with XFin r -> (match rn_is_rational fuel r with Some t -> t | None -> raise Out_of_fuel) | _ -> false) in
+       if ra = "1" && not (rational xa) then failf "after the comparison %s reports itself rational" a;
+       if rb = "1" && not (rational xb) then failf "after the comparison %s reports itself rational" b;
+       "CHECK ok"
+     | _ -> failf "malformed cmpt output")
   | ["cmpq"; a; q] ->
     (match load [a] states, res with
      | [(xa, va)], [c] ->
